@@ -1842,6 +1842,13 @@ class Parallel(Logger):
                 self._nb_consumed += 1
                 yield result
 
+        # The loop above is not entered when an error was registered before
+        # any batch could be dispatched (e.g. the input iterable raised while
+        # being consumed with pre_dispatch='all'): surface it instead of
+        # returning as if the input was empty.
+        if self._aborting:
+            self._raise_error_fast()
+
     def _raise_error_fast(self):
         """If we are aborting, raise if a job caused an error."""
 
